@@ -322,6 +322,9 @@ func (p *ReverseProxy) clusterInvoke(srv *BfeServer, cluster *bfe_cluster.BfeClu
 			switch retVal {
 			case bfe_module.BfeHandlerFinish:
 				// close the connection after response
+				// Note: connection num of the backend is not increased yet,
+				// so FinishReq() must not decrease it
+				request.Trans.Backend = nil
 				action = closeAfterReply
 				return
 			}
